@@ -9,7 +9,7 @@ EXPLANATION = ('Static rules on BehaviorSubject: B1 next() stores the new value 
                'a clone of the cell content to the new observer and then joins the inner subject; B3 the value cell is the subject family\'s '
                'shared pointer type (MutRc/MutArc, whose Clone clones the pointer), so all clones see one value; B4/B5 store+broadcast and '
                'replay+join each lie in one critical section (required for the thread-safe form; reported as known findings today); next_by = '
-               'peek, user f, next. Does not decide exactly-once delivery of later items (C06) nor values.')
+               'peek, user f, next; B7 no method holds the exclusive (write) guard of the value cell while it broadcasts, calls the new observer or runs a user closure (peek()/next_by()/subscribe from inside a callback must work). Does not decide exactly-once delivery of later items (C06) nor values.')
 ASSUMPTIONS = ['B4/B5 concern SubjectThreads instantiations with concurrent producers only']
 
 CONTROLS = [
@@ -56,6 +56,44 @@ def check(cx):
         _VAL['f'] = _value_field(cx, tag)
         VCLS = 'self.' + _VAL['f']
         tr = im.get('trait')
+        # B7: the guard of the value cell is never held while a notification is broadcast, a new observer is called or a user
+        # closure runs: peek() / next_by() / subscribe from inside a callback (and a re-entrant f) must find the cell free
+        if tag == TAG:
+            for fref in im.get('fns', []):
+                mfn = F.fns.get(fref['key'])
+                if mfn is None:
+                    continue
+                mg = cx.graph(mfn['key'])
+                held = lock_scopes(mg)
+                badn = None
+                for x in mg.nodes:
+                    if x['kind'] not in ('call', 'enter'):
+                        continue
+                    out = (x['name'] in ('observer::Observer::next', 'observer::Observer::error', 'observer::Observer::complete') and not x.get('body') or
+                           x['name'] == SUBSCRIBE or (x['name'] in FN_CALLS and x['kind'] == 'call') or
+                           (x['name'] in ('observer::Observer::next', 'observer::Observer::error', 'observer::Observer::complete') and x['args'] and recv_class(x['args'][0]) != VCLS and x['kind'] == 'enter'))
+                    if out and any(h[1] == VCLS and h[2] == 'W' for h in held[x['id']]):
+                        badn = x
+                        break
+                res.append(Finding(ID, 'B7', roles.stable_label(cx, mfn), badn is None,
+                                   'the value cell is free whenever a callback can run' if badn is None else
+                                   'a notification / user closure runs while the exclusive guard of the value cell is held: peek(), next_by() or a subscribe from inside that callback panics (RefCell) or deadlocks (Mutex)',
+                                   mg.loc(badn) if badn else mfn['span'], [node_desc(mg, badn)] if badn else None))
+            if tr == 'behavior::Behavior' and any(f['n'] == 'next_by' for f in im.get('fns', [])):
+                mfn = F.impl_fn(im, 'next_by')
+                mg = cx.graph(mfn['key'])
+
+                def ev4(n):
+                    if n['kind'] in ('call', 'enter'):
+                        if n['name'] == 'behavior::Behavior::peek' or (n['name'].startswith('rc::RcDeref') and n['args'] and recv_class(n['args'][0]) == VCLS):
+                            return ('peek',)
+                        if n['name'] in FN_CALLS:
+                            return ('user',)
+                        if n['name'] == 'observer::Observer::next':
+                            return ('next',)
+                    return None
+                bad4 = lang_check(mg, 'peek+ user peek* next', ev4, exact=True, empty_ok=False)
+                res.append(Finding(ID, 'B6', roles.stable_label(cx, mfn), not bad4, bad4[0] if bad4 else 'overridden next_by = read, f, next', mfn['span'], bad4[1] if bad4 else None))
         if tr == 'observer::Observer':
             seen.add('observer')
             fn = F.impl_fn(im, 'next')
